@@ -1528,6 +1528,9 @@ func (t *Topic) thisUserSub(sess *Session, pkt *ClientComMessage, asUid types.Ui
 	if !existingSub || userData.deleted {
 		// New subscription or a not yet cached channel reader, either new or existing.
 
+		// A deleted P2P subscription stays in the cache with its private data.
+		restoring, prevPrivate := userData.deleted, userData.private
+
 		// Check if the max number of subscriptions is already reached.
 		if t.cat == types.TopicCatGrp && !asChan && t.subsCount() >= globals.maxSubscriberCount {
 			sess.queueOut(ErrPolicyReply(pkt, now))
@@ -1648,6 +1651,9 @@ func (t *Topic) thisUserSub(sess *Session, pkt *ClientComMessage, asUid types.Ui
 			// A deleted subscription is being restored: the adapters keep the private data of the
 			// stored row (TopicShare un-deletes it), the cache must show the same.
 			userData.private = sub.Private
+		} else if restoring {
+			// Same for a P2P subscription restored from the cached record.
+			userData.private = prevPrivate
 		}
 
 		// Add subscription to database, if missing.
